@@ -147,7 +147,13 @@ def universe(ctx, toks, key, maxlen, icase, extra=()):
         if d is not None and '/' not in d:
             names.append(d + '\n')
     names.append('a\n')
-    return names
+    # in file-name mode the separator is an ordinary character: names that hold one (after a derived name, before it, inside it)
+    for _ in range(3):
+        d = gen.derive(rng, toks, alpha, icase=icase)
+        if d:
+            names += [d + '/b', d + '/', '/' + d, d[:1] + '/' + d[1:]]
+    names += ['a/b', '/', 'a/']
+    return list(dict.fromkeys(names))
 
 
 def posix_sweep(ctx):
